@@ -33,17 +33,20 @@ class LinkNative(Contract):
     symbolic = False
     has_native = True
     props = ("C20",)
-    bounded_scope = "4 EM receiver/transmitter class pairs + tipper receivers/base stations + DC potential/current electrodes; link from either side; edit a shared parameter through either side with and without having read the partner first; re-link to a second partner; re-open and fetch one side only; plain copy"
+    bounded_scope = "4 EM receiver/transmitter class pairs + tipper receivers/base stations + DC potential/current electrodes; link from either side; edit a shared parameter through either side with and without having read the partner first; re-link to a second partner; re-open and fetch one side only; plain copy; linking by a metadata document with identifiers as text (plain and braced); tipper copies from either side inside the same workspace"
 
     def native_cases(self, tier, rng):
         for rx, tx in EM_PAIRS:
             for direction in ("rx.transmitters=tx", "tx.receivers=rx"):
                 for scenario in ("edit-both-sides", "reopen-edit-unread", "relink", "copy"):
                     yield {"family": "em", "rx": rx, "tx": tx, "direction": direction, "scenario": scenario}
+                # linking by assigning the survey description with the identifiers given as text
+                for form in ("plain", "braces"):
+                    yield {"family": "em", "rx": rx, "tx": tx, "direction": direction, "scenario": "link-by-metadata-text", "form": form}
         for direction in ("rx=>tx", "tx=>rx"):
             for scenario in ("basic", "relink", "reopen"):
                 yield {"family": "dc", "direction": direction, "scenario": scenario}
-        for scenario in ("basic", "reopen"):
+        for scenario in ("basic", "reopen", "copy-receivers", "copy-base-stations"):
             yield {"family": "tipper", "scenario": scenario}
 
     def native_check(self, case):
@@ -83,8 +86,22 @@ class LinkNative(Contract):
         with Workspace.create(path) as ws:
             rx = RX.create(ws, vertices=_verts(), name="rx")
             tx = TX.create(ws, vertices=_verts(off=1.0), name="tx")
-            link(rx, tx)
+            if case["scenario"] == "link-by-metadata-text":
+                import json
+
+                src = rx if case["direction"].startswith("rx") else tx
+                doc = json.loads(json.dumps(src.metadata, default=str))
+                text = (lambda u: str(u)) if case["form"] == "plain" else (lambda u: "{" + str(u) + "}")
+                doc["EM Dataset"]["Receivers"] = text(rx.uid)
+                doc["EM Dataset"]["Transmitters"] = text(tx.uid)
+                src.metadata = doc
+            else:
+                link(rx, tx)
             bad = both_ids(rx, tx, "after linking")
+            if not bad and case["scenario"] == "link-by-metadata-text":
+                rx.channels = [1.0, 2.0]
+                if list(tx.channels) != [1.0, 2.0]:
+                    bad = f"channels edited through the receivers are {tx.channels} on the transmitters"
             if bad:
                 return f"{bad} ({case})"
             if case["scenario"] == "edit-both-sides":
@@ -192,7 +209,25 @@ class LinkNative(Contract):
             if list(bs.channels) != [30.0, 45.0]:
                 return f"channels edited through the receivers are {bs.channels} on the base stations ({case})"
             uids = (rx.uid, bs.uid)
-        if case["scenario"] == "reopen":
+            if case["scenario"].startswith("copy"):
+                before = (dict(rx.metadata["EM Dataset"]), dict(bs.metadata["EM Dataset"]))
+                if case["scenario"] == "copy-receivers":
+                    new_rx = rx.copy()
+                    new_bs = new_rx.base_stations
+                else:
+                    new_bs = bs.copy()
+                    new_rx = new_bs.receivers
+                if new_rx is None or new_bs is None or new_rx is rx or new_bs is bs:
+                    return f"copying one side of a tipper pair did not produce a copy of the partner ({case})"
+                if new_rx.base_stations is not new_bs or new_bs.receivers is not new_rx:
+                    return f"the two copies are not linked to each other: receivers -> {getattr(new_rx.base_stations, 'name', None)}, base stations -> {getattr(new_bs.receivers, 'name', None)} ({case})"
+                if rx.base_stations is not bs or bs.receivers is not rx or (dict(rx.metadata["EM Dataset"]), dict(bs.metadata["EM Dataset"])) != before:
+                    return f"copying changed the originals' links or metadata ({case})"
+                new_rx.channels = [10.0, 20.0]
+                if list(new_bs.channels) != [10.0, 20.0] or list(rx.channels) != [30.0, 45.0] or list(bs.channels) != [30.0, 45.0]:
+                    return f"an edit on the copy is not confined to the two copies: copy partner {new_bs.channels}, originals {rx.channels} / {bs.channels} ({case})"
+                uids = (rx.uid, bs.uid)
+        if case["scenario"] in ("reopen", "copy-receivers", "copy-base-stations"):
             with Workspace(path, mode="r") as ws:
                 a, b = ws.get_entity(uids[0])[0], ws.get_entity(uids[1])[0]
                 if a.base_stations is not b or b.receivers is not a or list(b.channels) != [30.0, 45.0]:
